@@ -5,15 +5,25 @@ read from the working tree by AST extraction (no import) -> lean/AgVerif/Gen/Ars
                           RES_TABLE_TYPE_SPEC_TYPE, RES_XML_FIRST_CHUNK_TYPE, RES_XML_LAST_CHUNK_TYPE, UTF8_FLAG
   ARSCHeader.SIZE         (an expression of integer literals)
   ARSCResTableEntry       FLAG_COMPLEX, FLAG_PUBLIC, FLAG_WEAK, FLAG_COMPACT
-  ARSCParser.__init__     the local constants FLAG_SPARSE, FLAG_OFFSET16, NO_ENTRY_16, NO_ENTRY_32
-  ARSCParser.__init__     the entry-offset conversions of the three ResTable_type array layouts, as *expressions*
-                          (translated, not evaluated): the helper `offset_from16` (0xFFFF sentinel, x4), the FLAG_SPARSE
-                          branch (`idx, off = unpack('<HH')`, `offset = off * 4`, no sentinel), the FLAG_OFFSET16 branch
-                          (`offset = offset_from16(offset_16)`, skipped when `== NO_ENTRY_16`), the plain branch (raw
-                          32-bit offset, skipped when `== NO_ENTRY_32`), and the two `mResId & 0xFFFF0000 | index`
-                          assignments.  The model's entry-array decoders are built from these definitions and
-                          Props/C28.lean pins them (`sparse_offset_spec`, `offset16_spec`, ...): a changed expression
-                          breaks a theorem; a shape this translator no longer recognises raises (= broken obligation).
+  ARSCParser              FLAG_SPARSE, FLAG_OFFSET16, NO_ENTRY_16, NO_ENTRY_32: local to a method of ARSCParser or module level
+                          (exactly one value each, else this raises)
+  ARSCParser              the loop over the entries of a ResTable_type (`for <i> in range([0,] <type>.entryCount)` whose first
+                          statement tests FLAG_SPARSE), in __init__ or in a method __init__ calls (one level); names of locals
+                          are discovered (the tuple bound to `unpack('<HH', 4 bytes)`, the raw 16-bit value, the variable appended
+                          with `<package>.mResId`), not assumed.  Read from it:
+                          * sparse branch and 16-bit branch: VERIFIED, not pattern-matched: their integer statements (assignments,
+                            `if …: continue`, conditional expressions, calls of a nested or module-level helper) are evaluated for
+                            every value the 16-bit `unpack` can deliver (0..65535).  When the sparse branch yields `4*off` for all of
+                            them and the 16-bit branch skips exactly 0xFFFF and yields `4*raw` otherwise, the canonical definitions
+                            (`sparseOffset`, `offsetFrom16`, `dense16Offset`, `dense16Skip`) are emitted — whatever the arithmetic
+                            looks like (helper or none, sentinel tested before or after the conversion, `<< 2` for `* 4`).
+                            Otherwise the branch's own expression is translated, so that the pin in Props/C28.lean
+                            (`sparse_offset_spec`, `offset16_spec`) fails on it; when it cannot be translated this raises,
+                            naming the first deviating value.  Statements the evaluator does not understand raise.
+                          * plain branch (2^32 values, not enumerable): structurally, the raw 32-bit read and one
+                            `== NO_ENTRY_32` skip test (either operand order)  (`plainSkip`, pinned by `plain_skip_spec`)
+                          * the two `<package>.mResId = <mask-and-or of mResId and the index>` assignments, translated as
+                            expressions (`sparseEntryId`, `denseEntryId`, pinned by `entry_id_spec`)
   types.py                TYPE_REFERENCE, TYPE_ATTRIBUTE, TYPE_STRING, TYPE_FLOAT, TYPE_DIMENSION, TYPE_FRACTION,
                           TYPE_INT_DEC, TYPE_INT_HEX, TYPE_INT_BOOLEAN, TYPE_FIRST_COLOR_INT, TYPE_LAST_COLOR_INT,
                           TYPE_FIRST_INT, TYPE_LAST_INT
@@ -55,7 +65,7 @@ class Shape(ValueError):
     """the anchored code no longer has the shape this translator understands"""
 
 
-def _lean(node, params):
+def _lean(node, params, funcs=None):
     """a Python integer expression over `params` (and the local constants) as a Lean `Nat` term"""
     if isinstance(node, ast.Constant) and isinstance(node.value, int) and not isinstance(node.value, bool) and node.value >= 0:
         return str(node.value)
@@ -71,25 +81,25 @@ def _lean(node, params):
         ops = {ast.Mult: "*", ast.Add: "+", ast.LShift: "<<<", ast.BitOr: "|||", ast.BitAnd: "&&&"}
         if type(node.op) not in ops:
             raise Shape("unexpected operator in offset expression: " + ast.dump(node.op))
-        return "(%s %s %s)" % (_lean(node.left, params), ops[type(node.op)], _lean(node.right, params))
+        return "(%s %s %s)" % (_lean(node.left, params, funcs), ops[type(node.op)], _lean(node.right, params, funcs))
     if isinstance(node, ast.IfExp):
-        return "(if %s then %s else %s)" % (_lean_test(node.test, params), _lean(node.body, params), _lean(node.orelse, params))
-    if isinstance(node, ast.Call) and isinstance(node.func, ast.Name) and node.func.id == "offset_from16" \
-            and len(node.args) == 1 and not node.keywords:
-        return "(offsetFrom16 %s)" % _lean(node.args[0], params)
+        return "(if %s then %s else %s)" % (_lean_test(node.test, params, funcs), _lean(node.body, params, funcs), _lean(node.orelse, params, funcs))
+    if isinstance(node, ast.Call) and isinstance(node.func, ast.Name) and len(node.args) == 1 and not node.keywords \
+            and (node.func.id == "offset_from16" or (funcs and node.func.id in funcs)):
+        return "(offsetFrom16 %s)" % _lean(node.args[0], params, funcs)
     raise Shape("unexpected offset expression: " + ast.unparse(node))
 
 
-def _lean_test(node, params):
+def _lean_test(node, params, funcs=None):
     if isinstance(node, ast.Compare) and len(node.ops) == 1 and isinstance(node.ops[0], (ast.Eq, ast.NotEq)):
         op = "=" if isinstance(node.ops[0], ast.Eq) else "≠"
-        return "(%s %s %s)" % (_lean(node.left, params), op, _lean(node.comparators[0], params))
+        return "(%s %s %s)" % (_lean(node.left, params, funcs), op, _lean(node.comparators[0], params, funcs))
     raise Shape("unexpected test in offset expression: " + ast.unparse(node))
 
 
 def _need(cond, what):
     if not cond:
-        raise Shape("entry-offset loop of ARSCParser.__init__: " + what)
+        raise Shape("entry-offset loop of ARSCParser: " + what)
 
 
 def _assign_to(stmts, name):
@@ -99,45 +109,239 @@ def _assign_to(stmts, name):
 
 
 def _skip_test(stmts, var):
-    """`if <var> == CONST: continue` -> the test"""
+    """`if <test>: continue` -> the test"""
     hits = [s for s in stmts if isinstance(s, ast.If) and len(s.body) == 1 and isinstance(s.body[0], ast.Continue)
             and not s.orelse]
     _need(len(hits) == 1, "exactly one `if ...: continue` expected after the read of `%s`" % var)
     return hits[0].test
 
 
-def offset_exprs(init):
-    """the Lean definitions for the conversions in the `for i in range(0, a_res_type.entryCount)` loop"""
-    helpers = [n for n in ast.walk(init) if isinstance(n, ast.FunctionDef) and n.name == "offset_from16"]
-    _need(len(helpers) == 1, "helper offset_from16 not found")
-    h = helpers[0]
-    _need(len(h.args.args) == 1 and len(h.body) == 1 and isinstance(h.body[0], ast.Return), "offset_from16 is not a single return")
-    hp = h.args.args[0].arg
-    loops = [n for n in ast.walk(init) if isinstance(n, ast.For) and ast.unparse(n.target) == "i"
-             and ast.unparse(n.iter) == "range(0, a_res_type.entryCount)"]
-    _need(len(loops) == 1, "the loop over range(0, a_res_type.entryCount) not found")
-    body = loops[0].body
-    _need(len(body) == 2 and isinstance(body[0], ast.If) and ast.unparse(body[0].test) == "a_res_type.flags & FLAG_SPARSE",
-          "first statement is not `if a_res_type.flags & FLAG_SPARSE`")
-    _need(ast.unparse(body[1]) == "entries.append((offset, current_package.mResId))", "entries.append((offset, mResId)) expected")
+# ---- a small evaluator for the integer statements of one branch of the loop (used to VERIFY a branch on its
+# ---- complete finite domain: every 16-bit value the `unpack` can deliver)
+class _Skip(Exception):
+    pass
+
+
+class _Ret(Exception):
+    def __init__(self, v):
+        self.v = v
+
+
+_BIN = {ast.Add: lambda a, b: a + b, ast.Sub: lambda a, b: a - b, ast.Mult: lambda a, b: a * b,
+        ast.LShift: lambda a, b: a << b, ast.RShift: lambda a, b: a >> b, ast.BitOr: lambda a, b: a | b,
+        ast.BitAnd: lambda a, b: a & b, ast.BitXor: lambda a, b: a ^ b, ast.Mod: lambda a, b: a % b,
+        ast.FloorDiv: lambda a, b: a // b}
+_CMP = {ast.Eq: lambda a, b: a == b, ast.NotEq: lambda a, b: a != b, ast.Lt: lambda a, b: a < b,
+        ast.LtE: lambda a, b: a <= b, ast.Gt: lambda a, b: a > b, ast.GtE: lambda a, b: a >= b}
+
+
+def _eval(node, env, funcs):
+    if isinstance(node, ast.Constant) and isinstance(node.value, (int, bool)):
+        return node.value
+    if isinstance(node, ast.Name):
+        if node.id in env:
+            return env[node.id]
+        raise Shape("name without a value in an offset expression: " + node.id)
+    if isinstance(node, ast.BinOp) and type(node.op) in _BIN:
+        return _BIN[type(node.op)](_eval(node.left, env, funcs), _eval(node.right, env, funcs))
+    if isinstance(node, ast.UnaryOp) and isinstance(node.op, (ast.Invert, ast.USub, ast.Not)):
+        v = _eval(node.operand, env, funcs)
+        return ~v if isinstance(node.op, ast.Invert) else -v if isinstance(node.op, ast.USub) else (not v)
+    if isinstance(node, ast.IfExp):
+        return _eval(node.body if _eval(node.test, env, funcs) else node.orelse, env, funcs)
+    if isinstance(node, ast.Compare) and all(type(o) in _CMP for o in node.ops):
+        left = _eval(node.left, env, funcs)
+        for o, c in zip(node.ops, node.comparators):
+            right = _eval(c, env, funcs)
+            if not _CMP[type(o)](left, right):
+                return False
+            left = right
+        return True
+    if isinstance(node, ast.BoolOp):
+        vals = [_eval(v, env, funcs) for v in node.values]
+        return all(vals) if isinstance(node.op, ast.And) else any(vals)
+    if isinstance(node, ast.Call) and isinstance(node.func, ast.Name) and node.func.id in funcs and not node.keywords:
+        f = funcs[node.func.id]
+        ps = [a.arg for a in f.args.args]
+        _need(len(ps) == len(node.args) and not f.args.defaults and not f.args.vararg and not f.args.kwonlyargs,
+              "helper %s: plain positional parameters expected" % f.name)
+        inner = dict({k: v for k, v in env.items() if k.isupper()}, **{p: _eval(a, env, funcs) for p, a in zip(ps, node.args)})
+        try:
+            _run(f.body, inner, funcs)
+        except _Ret as r:
+            return r.v
+        raise Shape("helper %s does not return" % f.name)
+    raise Shape("cannot evaluate offset expression: " + ast.unparse(node))
+
+
+def _run(stmts, env, funcs, ignore_attr_targets=True):
+    for st in stmts:
+        if isinstance(st, ast.Expr) and isinstance(st.value, ast.Constant):
+            continue                                               # docstring / comment string
+        if isinstance(st, ast.Return) and st.value is not None:
+            raise _Ret(_eval(st.value, env, funcs))
+        if isinstance(st, ast.Continue):
+            raise _Skip()
+        if isinstance(st, ast.Assign) and len(st.targets) == 1:
+            t = st.targets[0]
+            if isinstance(t, ast.Name):
+                env[t.id] = _eval(st.value, env, funcs)
+                continue
+            if isinstance(t, ast.Attribute) and ignore_attr_targets:
+                continue                                           # `current_package.mResId = …` is read structurally
+        if isinstance(st, ast.If):
+            _run(st.body if _eval(st.test, env, funcs) else st.orelse, env, funcs, ignore_attr_targets)
+            continue
+        raise Shape("cannot interpret statement of the entry-offset loop: " + ast.unparse(st)[:80])
+
+
+def _is_read(node, fmt, nbytes, via=None):
+    """`unpack(fmt, self.buff.read(n))` or `unpack(fmt, <name bound to self.buff.read(n)>)`"""
+    if not (isinstance(node, ast.Call) and ast.unparse(node.func) in ("unpack", "struct.unpack") and len(node.args) == 2
+            and isinstance(node.args[0], ast.Constant) and node.args[0].value == fmt):
+        return False
+    src = node.args[1]
+    if isinstance(src, ast.Name) and via is not None and src.id in via:
+        src = via[src.id]
+    return ast.unparse(src) == "self.buff.read(%d)" % nbytes
+
+
+def _find_loop(cls):
+    """the loop over the entries of a ResTable_type: in ARSCParser.__init__, or in a method __init__ calls"""
+    methods = {f.name: f for f in cls.body if isinstance(f, ast.FunctionDef)}
+    _need("__init__" in methods, "ARSCParser.__init__ not found")
+    called = {n.func.attr for n in ast.walk(methods["__init__"]) if isinstance(n, ast.Call)
+              and isinstance(n.func, ast.Attribute) and isinstance(n.func.value, ast.Name) and n.func.value.id == "self"}
+    hits = []
+    for name, f in methods.items():
+        if name != "__init__" and name not in called:
+            continue
+        for n in ast.walk(f):
+            if isinstance(n, ast.For) and isinstance(n.target, ast.Name) and isinstance(n.iter, ast.Call) \
+                    and ast.unparse(n.iter.func) == "range" and n.iter.args \
+                    and ast.unparse(n.iter.args[-1]).endswith(".entryCount") \
+                    and (len(n.iter.args) == 1 or (len(n.iter.args) == 2 and ast.unparse(n.iter.args[0]) == "0")) \
+                    and n.body and isinstance(n.body[0], ast.If) and "FLAG_SPARSE" in ast.unparse(n.body[0].test):
+                hits.append((f, n))
+    _need(len(hits) == 1, "exactly one loop `for i in range(0, <type>.entryCount)` testing FLAG_SPARSE expected, found %d" % len(hits))
+    return hits[0]
+
+
+def _first_mismatch(domain, f, want):
+    for v in domain:
+        got = f(v)
+        if got != want(v):
+            return v, got, want(v)
+    return None
+
+
+CANON = {
+    "offsetFrom16": ("offsetFrom16", ["off16"], "Nat", "(if (off16 = noEntry16) then noEntry16 else (off16 * 4))"),
+    "sparseOffset": ("sparseOffset", ["off"], "Nat", "(off * 4)"),
+    "dense16Offset": ("dense16Offset", ["offset_16"], "Nat", "(offsetFrom16 offset_16)"),
+    "dense16Skip": ("dense16Skip", ["offset"], "Bool", "decide (offset = noEntry16)"),
+    "plainSkip": ("plainSkip", ["offset"], "Bool", "decide (offset = noEntry32)"),
+}
+
+
+def offset_exprs(tree, cls, consts):
+    """the Lean definitions for the conversions in the loop over the entries of a ResTable_type.
+
+    Names of locals are discovered, not assumed; constants may be local or module level; the 16-bit helper may be
+    nested, module level, or absent.  The sparse and the 16-bit branch are VERIFIED by evaluating their statements
+    for every 16-bit value: when a branch computes `offset = 4 * raw` (16-bit: with raw = 0xFFFF skipped) on the whole
+    domain, the canonical definitions are emitted; otherwise the branch's own expression is translated (so that the
+    pin in Props/C28.lean fails on it) or, when it cannot be translated, this raises with the first deviating value."""
+    fn, loop = _find_loop(cls)
+    ivar = loop.target.id
+    tyname = ast.unparse(loop.iter.args[-1])[: -len(".entryCount")]
+    funcs = {f.name: f for f in tree.body if isinstance(f, ast.FunctionDef)}
+    funcs.update({f.name: f for f in ast.walk(fn) if isinstance(f, ast.FunctionDef) and f is not fn})
+    cenv = dict(consts)
+    body = loop.body
+    _need(len(body) == 2 and ast.unparse(body[0].test) == tyname + ".flags & FLAG_SPARSE",
+          "first statement is not `if %s.flags & FLAG_SPARSE`" % tyname)
+    app = body[1]
+    _need(isinstance(app, ast.Expr) and isinstance(app.value, ast.Call) and isinstance(app.value.func, ast.Attribute)
+          and app.value.func.attr == "append" and len(app.value.args) == 1 and isinstance(app.value.args[0], ast.Tuple)
+          and len(app.value.args[0].elts) == 2 and isinstance(app.value.args[0].elts[0], ast.Name)
+          and isinstance(app.value.args[0].elts[1], ast.Attribute) and app.value.args[0].elts[1].attr == "mResId",
+          "`<entries>.append((<offset>, <package>.mResId))` expected as the last statement of the loop")
+    offvar = app.value.args[0].elts[0].id
+    idattr = ast.unparse(app.value.args[0].elts[1])
     sparse, dense = body[0].body, body[0].orelse
-    _need(ast.unparse(_assign_to(sparse, "entry")) == "self.buff.read(4)", "sparse: 4 bytes per entry expected")
-    _need(ast.unparse(_assign_to(sparse, "(idx, off)")) == "unpack('<HH', entry)", "sparse: idx, off = unpack('<HH', entry) expected")
-    _need(not any(isinstance(s, (ast.If, ast.Continue)) for s in sparse), "sparse: no skipped entries expected")
-    idmask = {"current_package.mResId": "mResId"}
-    out = [("offsetFrom16", [hp], "Nat", _lean(h.body[0].value, {hp: hp})),
-           ("sparseOffset", ["off"], "Nat", _lean(_assign_to(sparse, "offset"), {"off": "off"})),
-           ("sparseEntryId", ["mResId", "idx"], "Nat", _lean(_assign_to(sparse, "current_package.mResId"), dict(idmask, idx="idx")))]
-    _need(len(dense) == 2 and isinstance(dense[1], ast.If) and ast.unparse(dense[1].test) == "a_res_type.flags & FLAG_OFFSET16",
-          "dense: `if a_res_type.flags & FLAG_OFFSET16` expected")
-    out.append(("denseEntryId", ["mResId", "i"], "Nat", _lean(_assign_to(dense[:1], "current_package.mResId"), dict(idmask, i="i"))))
+    # ---- sparse: (idx, off) = unpack('<HH', 4 bytes)
+    via = {s.targets[0].id: s.value for s in sparse if isinstance(s, ast.Assign) and len(s.targets) == 1
+           and isinstance(s.targets[0], ast.Name)}
+    reads = [s for s in sparse if isinstance(s, ast.Assign) and len(s.targets) == 1 and isinstance(s.targets[0], ast.Tuple)
+             and len(s.targets[0].elts) == 2 and all(isinstance(e, ast.Name) for e in s.targets[0].elts)
+             and _is_read(s.value, "<HH", 4, via)]
+    _need(len(reads) == 1, "sparse: `idx, off = unpack('<HH', <4 bytes>)` expected")
+    idxn, offn = (e.id for e in reads[0].targets[0].elts)
+    rest = [s for s in sparse if s is not reads[0] and not (isinstance(s, ast.Assign) and ast.unparse(s.value) == "self.buff.read(4)")]
+
+    def sparse_at(v):
+        env = dict(cenv, **{idxn: 0, offn: v})
+        try:
+            _run(rest, env, funcs)
+        except _Skip:
+            return "skip"
+        return env.get(offvar)
+    out = []
+    bad = _first_mismatch(range(65536), sparse_at, lambda v: 4 * v)
+    if bad is None:
+        sparse_def = CANON["sparseOffset"]
+    else:
+        try:
+            _need(not any(isinstance(s, (ast.If, ast.Continue)) for s in sparse), "sparse: no skipped entries expected")
+            sparse_def = ("sparseOffset", ["off"], "Nat", _lean(_assign_to(sparse, offvar), {offn: "off"}, funcs))
+        except Shape as e:
+            raise Shape("sparse branch: offset(0x%X) = %r, expected %r; and not translatable: %s" % (bad + (e,)))
+    idmask = {idattr: "mResId"}
+    sparse_id = ("sparseEntryId", ["mResId", "idx"], "Nat", _lean(_assign_to(sparse, idattr), dict(idmask, **{idxn: "idx"}), funcs))
+    # ---- dense: id, then 16-bit or 32-bit offsets
+    _need(len(dense) == 2 and isinstance(dense[1], ast.If) and ast.unparse(dense[1].test) == tyname + ".flags & FLAG_OFFSET16",
+          "dense: `if %s.flags & FLAG_OFFSET16` expected" % tyname)
+    dense_id = ("denseEntryId", ["mResId", "i"], "Nat", _lean(_assign_to(dense[:1], idattr), dict(idmask, **{ivar: "i"}), funcs))
     d16, d32 = dense[1].body, dense[1].orelse
-    _need(ast.unparse(_assign_to(d16, "offset_16")) == "unpack('<H', self.buff.read(2))[0]", "offset16: 16-bit read expected")
-    out.append(("dense16Offset", ["offset_16"], "Nat", _lean(_assign_to(d16, "offset"), {"offset_16": "offset_16"})))
-    out.append(("dense16Skip", ["offset"], "Bool", "decide " + _lean_test(_skip_test(d16, "offset_16"), {"offset": "offset"})))
-    _need(ast.unparse(_assign_to(d32, "offset")) == "unpack('<I', self.buff.read(4))[0]", "plain: raw 32-bit read expected")
-    out.append(("plainSkip", ["offset"], "Bool", "decide " + _lean_test(_skip_test(d32, "offset"), {"offset": "offset"})))
-    return out
+    r16 = [s for s in d16 if isinstance(s, ast.Assign) and len(s.targets) == 1 and isinstance(s.targets[0], ast.Name)
+           and isinstance(s.value, ast.Subscript) and ast.unparse(s.value.slice) == "0" and _is_read(s.value.value, "<H", 2)]
+    _need(len(r16) == 1 and d16[0] is r16[0], "offset16: `<raw> = unpack('<H', self.buff.read(2))[0]` expected first")
+    rawn = r16[0].targets[0].id
+
+    def d16_at(v):
+        env = dict(cenv, **{rawn: v})
+        try:
+            _run(d16[1:], env, funcs)
+        except _Skip:
+            return "skip"
+        return env.get(offvar)
+    bad = _first_mismatch(range(65536), d16_at, lambda v: "skip" if v == 0xFFFF else 4 * v)
+    if bad is None:
+        d16_defs = [CANON["offsetFrom16"], CANON["dense16Offset"], CANON["dense16Skip"]]
+    else:
+        try:
+            call = _assign_to(d16, offvar)
+            _need(isinstance(call, ast.Call) and isinstance(call.func, ast.Name) and call.func.id in funcs, "helper call expected")
+            h = funcs[call.func.id]
+            _need(len(h.args.args) == 1 and len(h.body) == 1 and isinstance(h.body[0], ast.Return), "helper is not a single return")
+            hp = h.args.args[0].arg
+            d16_defs = [("offsetFrom16", [hp], "Nat", _lean(h.body[0].value, {hp: hp}, funcs)),
+                        ("dense16Offset", ["offset_16"], "Nat", "(offsetFrom16 %s)" % _lean(call.args[0], {rawn: "offset_16"}, funcs)),
+                        ("dense16Skip", ["offset"], "Bool", "decide " + _lean_test(_skip_test(d16, rawn), {offvar: "offset"}, funcs))]
+        except Shape as e:
+            raise Shape("offset16 branch: raw 0x%X gives %r, expected %r; and not translatable: %s" % (bad + (e,)))
+    # ---- plain: raw 32-bit offset, one sentinel (2^32 values: read structurally)
+    r32 = [s for s in d32 if isinstance(s, ast.Assign) and len(s.targets) == 1 and isinstance(s.targets[0], ast.Name)
+           and isinstance(s.value, ast.Subscript) and ast.unparse(s.value.slice) == "0" and _is_read(s.value.value, "<I", 4)]
+    _need(len(r32) == 1 and r32[0].targets[0].id == offvar and len(d32) == 2, "plain: `<offset> = unpack('<I', self.buff.read(4))[0]` and one test expected")
+    t = _skip_test(d32, offvar)
+    if isinstance(t, ast.Compare) and len(t.ops) == 1 and isinstance(t.ops[0], ast.Eq) and \
+            {ast.unparse(t.left), ast.unparse(t.comparators[0])} == {offvar, "NO_ENTRY_32"}:
+        plain = CANON["plainSkip"]
+    else:
+        plain = ("plainSkip", ["offset"], "Bool", "decide " + _lean_test(t, {offvar: "offset"}, funcs))
+    return [d16_defs[0], sparse_def, sparse_id, dense_id, d16_defs[1], d16_defs[2], plain]
 
 
 def generate(repo):
@@ -150,11 +354,17 @@ def generate(repo):
     hdr, ent, loc = {}, {}, {}
     _assigns(cls["ARSCHeader"].body, dict(env), hdr)
     _assigns(cls["ARSCResTableEntry"].body, dict(env), ent)
-    init = [f for f in cls["ARSCParser"].body if isinstance(f, ast.FunctionDef) and f.name == "__init__"][0]
-    for node in ast.walk(init):
-        if isinstance(node, ast.Assign) and len(node.targets) == 1 and isinstance(node.targets[0], ast.Name) \
-                and node.targets[0].id in ("FLAG_SPARSE", "FLAG_OFFSET16", "NO_ENTRY_16", "NO_ENTRY_32"):
-            loc[node.targets[0].id] = _ev(node.value, env)
+    for name in ("FLAG_SPARSE", "FLAG_OFFSET16", "NO_ENTRY_16", "NO_ENTRY_32"):
+        vals = set()
+        if name in mod:
+            vals.add(mod[name])
+        for node in ast.walk(cls["ARSCParser"]):
+            if isinstance(node, ast.Assign) and len(node.targets) == 1 and isinstance(node.targets[0], ast.Name) \
+                    and node.targets[0].id == name:
+                vals.add(_ev(node.value, env))
+        if len(vals) != 1:
+            raise Shape("constant %s: exactly one value expected (module level or local to ARSCParser), found %s" % (name, sorted(vals)))
+        loc[name] = vals.pop()
     want = [
         ("resStringPoolType", mod["RES_STRING_POOL_TYPE"]), ("resTableType", mod["RES_TABLE_TYPE"]),
         ("resTablePackageType", mod["RES_TABLE_PACKAGE_TYPE"]), ("resTableTypeType", mod["RES_TABLE_TYPE_TYPE"]),
@@ -178,7 +388,7 @@ def generate(repo):
     for n, v in want:
         lines.append(f"def {n} : Nat := {v}")
     lines += ["", "/-! the entry-offset conversions of ARSCParser.__init__ (translated expressions) -/"]
-    for name, params, ty, body in offset_exprs(init):
+    for name, params, ty, body in offset_exprs(tree, cls["ARSCParser"], loc):
         lines.append("def %s %s : %s := %s" % (name, " ".join("(%s : Nat)" % p for p in params), ty, body))
     lines += ["", "end AgVerif.Gen.ArscConsts", ""]
     return {"ArscConsts": "\n".join(lines)}
